@@ -957,10 +957,19 @@ class Index(IndexBase):
             return key
 
         if self._map is None and offset is not None: # loc_is_iloc
+            size = self.__len__()
             if key.__class__ is slice:
                 if key == NULL_SLICE:
-                    return slice(offset, self.__len__() + offset)
-                return slice_to_inclusive_slice(key, offset) #type: ignore
+                    return slice(offset, size + offset)
+                key = slice_to_inclusive_slice(key) #type: ignore
+                if key.step is None or key.step > 0:
+                    # an open bound ends at this index, not at the bounds of what the offset positions refer to
+                    start = 0 if key.start is None else key.start
+                    stop = size if key.stop is None else min(key.stop, size)
+                    return slice(start + offset, stop + offset, key.step)
+                return slice(None if key.start is None else key.start + offset,
+                        None if key.stop is None else key.stop + offset,
+                        key.step)
 
             if key.__class__ is np.ndarray:
                 # PERF: isolate for usage of _positions
@@ -971,11 +980,19 @@ class Index(IndexBase):
                     return self._positions[key] + offset
                 if key.dtype != DTYPE_INT_DEFAULT: #type: ignore
                     key = key.astype(DTYPE_INT_DEFAULT) #type: ignore
-                return key + offset
+                key = key.tolist() #type: ignore
 
             if isinstance(key, list):
-               return [k + offset for k in key]
+                # only the positions of this index are labels
+                if partial_selection:
+                    return [k + offset for k in key if self.__contains__(k)]
+                for k in key:
+                    if not self.__contains__(k):
+                        raise KeyError(k)
+                return [k + offset for k in key]
             # a single element
+            if not self.__contains__(key):
+                raise KeyError(key)
             return key + offset # type: ignore
 
         if key_transform:
